@@ -514,7 +514,7 @@ func init() {
 		Rule: "four generators against the real interpreter: (1) every (prototype, property) found at run time in the built-in prototypes × seed-chosen receivers/arguments from the value pool (every type, empty/zero, negative, extremes, prototypes as values, descendants) in 7 call forms incl. `Proto['prop](args…)` with arbitrary arity and keyword arguments, plus every pool value indexed by every pool value; " +
 			"(2) random mostly ill-typed programs over the whole surface syntax; (3) corpus programs with token-level and byte-level mutations (NUL, invalid UTF-8, unterminated strings, 64 KiB tokens); (4) stdin-consuming programs × 10 stdin doubles (empty, CRLF, >64 KiB line, NUL, invalid UTF-8, failing reader, 1-byte reader) × failing stdout, through the evaluator boundary, runscript.RunSource, the REPL, RunTest and a sample through the built CLI. " +
 			"Oracle: outcome ∈ {parse error, value, error with stack trace}; fuel/depth cut-offs, allocation-size panics and watchdog are inconclusive. distinct = distinct (prototype#property, call form, receiver family, argument families) tuples that reached evaluation + distinct generator classes; non-trivial = the program parsed and evaluation started" +
-			" Added in the seeded rounds: syntax-error reports over source layouts (multi-line tokens, deep/tab/multibyte indentation, CRLF, end of input); derived objects (18 key kinds × 8 conversion producers) handed to 29 key consumers (** into functions and methods, literals, accessors, printing, JSON); ranges that run against their step direction; an allocation-size panic is only put under the memory proviso when the program contains a large operand.",
+			" Added in the seeded rounds: syntax-error reports over source layouts (multi-line tokens, deep/tab/multibyte indentation, CRLF, end of input); derived objects (18 key kinds × 8 conversion producers) handed to 29 key consumers (** into functions and methods, literals, accessors, printing, JSON); ranges that run against their step direction; an allocation-size panic is only put under the memory proviso when the program contains a large operand. Sixth round: the built CLI run in a directory of modules (`-e` one-liners and script files making 2–4 relative import / invite! calls, bare and wrapped).",
 		Assumptions: []string{
 			"fuel 300000 Eval calls / depth 20000 / 2 GiB heap / 20 s per case are the statement's 'bounded recursion depth and memory' provisos (inconclusive, never a verdict)",
 			"web/wasm/executor.go needs syscall/js; its execute() body is transcribed by interp.Run (same calls in the same order)",
